@@ -175,7 +175,7 @@ func checkSQLScope(r *vx.Run) {
 	bdb := bun.NewDB(sql.OpenDB(rec), pgdialect.New(), bun.WithDiscardUnknownColumns())
 	st := ledgerstore.NewStoreForVerif(bdb, "bucket", scopeLedger)
 	ctx := context.Background()
-	pit := ledger.Time{Time: time.Unix(baseEpoch+5, 0).UTC()}
+	pit := toTime(5 * sec)
 	type call struct {
 		name string
 		f    func()
